@@ -9,5 +9,6 @@ def check(ck):
     ck.run(H.check_dotted_names, ck, "C14.R1b")
     ck.run(H.check_names_resolved_where_defined, ck, "C14.R1c")
     ck.run(H.check_graph_derivation, ck, "C14.R2")
+    ck.run(H.check_graph_nodes_from_own_rules, ck, "C14.R5")
     ck.run(H.check_version_taint, ck, "C14.R3")
     ck.run(H.check_enforcement, ck, "C14.R4")
